@@ -626,7 +626,7 @@ def cases(tier, seed):
     for mesh in [(2, 3, 4), (3, 1, 2)] + ([] if q else [(1, 1, 1), (4, 2, 3)]):
         out.append(Case(f"object: BKVectors.__init__ on a symbolic reciprocal lattice, mesh={mesh}", case_object_symbolic_lattice, dict(mesh=mesh, seed=seed), timeout=900))
     for name, mesh in [("mono", (2, 3, 4)), ("tric", (2, 3, 4)), ("hex", (2, 3, 4)), ("fcc", (3, 2, 2)), ("bcc", (2, 2, 3)), ("mono", (3, 3, 2))] + \
-            ([] if q else [("tric", (4, 3, 2)), ("hex", (3, 2, 5)), ("sc", (2, 3, 4)), ("ortho", (4, 2, 3)), ("mono", (5, 5, 7))]):
+            ([] if q else [("tric", (4, 3, 2)), ("hex", (3, 2, 5)), ("sc", (2, 3, 4)), ("ortho", (4, 2, 3)), ("mono", (3, 3, 4))]):
         out.append(Case(f"object: BKVectors.from_kpoints lattice={name} anisotropic mesh={mesh} symbolic kmesh_tol", case_object, dict(name=name, mesh=mesh, seed=seed), timeout=1500))
     return out
 
